@@ -533,6 +533,14 @@ def run(ctx):
     again = [c for c in cases if any(infra(impl.get(core.line_id(l))) for l in c["impl"])]
     if again:
         impl.update(core.run_impl(["R\tretry.R"] + [l for c in again for l in c["impl"]], env=env))
+    fps = [impl.get(i) for i in impl if i.endswith(".fp")]
+    if fps and all(str(r).startswith("bad-op") for r in fps):
+        # the harness has no FP/LM operations: the hook patch and fam_c35.rs are not applied
+        return {"evaluations": 0, "distinct_nontrivial": 0, "rule": "hook missing", "samples": [],
+                "traces_validated_against_impl": 0, "disagreements_checked": 0,
+                "findings": [core.Finding("disagreement", {"family": "footprint", "what": "hook-missing"},
+                                          "the harness does not know the operations FP / LM: apply notes/hooks/C35-repo.diff to /repo and add notes/hooks/fam_c35.rs to the harness (see notes/design/C35.md)",
+                                          {"id": "hook"})]}
     findings, agree, cov = judge(cases, impl, model, replay=rep is not None)
     distinct = set()
     for c in cases:
